@@ -37,6 +37,18 @@ def _run(cmd, cwd=None):
     return p.stdout
 
 
+_KNOWN = [None]
+
+
+def _known_functions():
+    """{source file name: names of the functions the pinned tree defines in it}; frozen in known_functions.json"""
+    if _KNOWN[0] is None:
+        import json as _json
+        p = os.path.join(os.path.dirname(os.path.abspath(__file__)), "known_functions.json")
+        _KNOWN[0] = dict((k, set(v)) for k, v in _json.load(open(p)).items()) if os.path.exists(p) else {}
+    return _KNOWN[0]
+
+
 class Workspace(object):
     def __init__(self):
         self.dir = tempfile.mkdtemp(prefix="yaep-sa-")
@@ -84,8 +96,19 @@ class Workspace(object):
             "-O0", "-Xclang", "-disable-O0-optnone", "-fno-discard-value-names", "-g", "-fstandalone-debug", "-w",
             "-S", "-emit-llvm", path, "-o", out + ".raw.ll"]
         _run(cmd)
-        if mem2reg:
-            _run(["opt-14", "-passes=mem2reg", "-S", out + ".raw.ll", "-o", out])
+        # Functions that the pinned tree does not have (helpers extracted by a later maintenance edit) are inlined into their callers
+        # before the analysis, so that the rules -- which name the functions of the pinned tree -- see the code where they expect it.
+        force = []
+        known = _known_functions().get(os.path.basename(path))
+        if known is not None:
+            import re as _re
+            for mm in _re.finditer(r"^define [^@\n]*@([\w.$]+|\"[^\"]+\")\(", open(out + ".raw.ll").read(), _re.M):
+                fn = mm.group(1).strip('"')
+                if fn not in known:
+                    force += ["-force-remove-attribute=%s:noinline" % fn, "-force-attribute=%s:alwaysinline" % fn]
+        passes = (["forceattrs", "always-inline"] if force else []) + (["mem2reg"] if mem2reg else [])
+        if passes:
+            _run(["opt-14", "-passes=" + ",".join(passes)] + force + ["-S", out + ".raw.ll", "-o", out])
             os.unlink(out + ".raw.ll")
         else:
             os.rename(out + ".raw.ll", out)
